@@ -42,6 +42,12 @@ func c14Program(n map[string]string, declKind int) (*ir.Program, bool) {
 	p := b.Root
 	la := &ir.Pkg{Name: n["pkgA"], Rel: "a/x"}
 	lb := &ir.Pkg{Name: n["pkgB"], Rel: "b/y"}
+	if n["relB"] != "" {
+		lb.Rel = n["relB"]
+	}
+	if n["relA"] != "" {
+		la.Rel = n["relA"]
+	}
 	tA := b.Leaf(la, n["tA"])
 	tB := b.Leaf(lb, n["tB"])
 	tC := b.Leaf(p, n["tC"])
@@ -261,6 +267,22 @@ func checkC14(c *h.Check) {
 		n2["tA"], n2["tB"] = "Thing", "Thing"
 		n2["fA"], n2["fB"] = "New", "New"
 		add("C14/samepkg="+nm+"/sametypes", n2, 0)
+		// the directory of the second one is named like the name wire will pick for it (and the other way round)
+		for v := 0; v < 3; v++ {
+			n3 := map[string]string{}
+			for k, x := range n {
+				n3[k] = x
+			}
+			switch v {
+			case 0:
+				n3["relB"] = "b/" + nm + "2"
+			case 1:
+				n3["relA"] = "a/" + nm + "2"
+			case 2:
+				n3["relA"], n3["relB"] = "a/"+nm+"2", "b/"+nm
+			}
+			add(fmt.Sprintf("C14/samepkg=%s/dir-named-like-second-choice=%d", nm, v), n3, 0)
+		}
 	}
 	// parameter lists whose names interact with each other: a blank parameter whose derived name is the name the user
 	// gave to a later (or earlier) one; a parameter renamed because of a package-level name next to one the user
